@@ -37,7 +37,9 @@ RULE = ("Hypothesis draws a method (<=7 top-level nodes, depth<=3: Mark/Quick/Sl
         "Non-trivial = at least one edit was ACCEPTED after a line of the method had started and before the method end event. "
         "Distinct = distinct (method, inputs, script).")
 ASSUMPTIONS = [
-    "'already-started line' = id listed in started/executed/failed of Engine.method_manager.get_method_state() at the edit",
+    "'already-started line' = id listed in started or executed of Engine.method_manager.get_method_state() at the edit; a line "
+    "listed as FAILED is neither used as a not-started target nor as a must-reject target: editing the failed line is the engine's "
+    "documented way to correct a method error (Engine.set_method clears the error state on an accepted edit)",
     "a change of ONLY the indentation of a started line that moves it into the body of the preceding Block/Watch/Alarm/Macro or out of "
     "its parent's body is a change of that line (it changes which scope executes it) and must be rejected",
     "a macro 'has started executing' when the reported method state lists one of its body lines as started/executed/failed or a "
@@ -289,7 +291,8 @@ def run_case(case):
             present = {l[0] for l in rec["new_lines"]} | {"root"}
             lost_e = (before["executed"] & present) - after["executed"]
             lost_s = (before["started"] & present) - (after["started"] | after["executed"] | after["failed"])
-            lost_f = (before["failed"] & present) - after["failed"]
+            same_text = {l[0] for l in rec["new_lines"] if l in rec["old_lines"]}       # an edited failed line may stop being failed
+            lost_f = (before["failed"] & present & same_text) - after["failed"]
             all_before = before["started"] | before["executed"] | before["failed"]
             all_after = after["started"] | after["executed"] | after["failed"]
             if all_before and not all_after:
